@@ -19,7 +19,8 @@ def run_stream(harness, model, stream, ops, workdir, tag, env=None, model_stream
     with open(ops_path, "w") as f:
         for label, o in ops:
             f.write(o + "\n")
-    e = {"ASAN_OPTIONS": "detect_leaks=1:abort_on_error=0", "UBSAN_OPTIONS": "print_stacktrace=1"}
+    e = {"ASAN_OPTIONS": "detect_leaks=1:abort_on_error=0", "UBSAN_OPTIONS": "print_stacktrace=1",
+         "TSAN_OPTIONS": "halt_on_error=1 exitcode=66"}
     if env:
         e.update(env)
     rc, out, err = run([harness, stream, ops_path], timeout=timeout, env=e)
